@@ -186,6 +186,9 @@ func init() {
 			return interpretInstead{}
 		},
 		"strconv.Unquote": func(fr *frame, args []value) value {
+			if _, ok := args[0].(symStr); ok {
+				return interpretInstead{}
+			}
 			s, err := strconv.Unquote(concStr(args[0], "strconv.Unquote"))
 			return tuple{s, fr.i.errValue(err)}
 		},
@@ -533,18 +536,27 @@ func extParseFloat(fr *frame, args []value) value {
 }
 
 func extParseInt(fr *frame, args []value) value {
+	if _, ok := args[0].(symStr); ok {
+		return interpretInstead{}
+	}
 	s := concStr(args[0], "strconv.ParseInt")
 	n, err := strconv.ParseInt(s, int(asInt64(args[1])), int(asInt64(args[2])))
 	return tuple{n, fr.i.numError(err)}
 }
 
 func extParseUint(fr *frame, args []value) value {
+	if _, ok := args[0].(symStr); ok {
+		return interpretInstead{}
+	}
 	s := concStr(args[0], "strconv.ParseUint")
 	n, err := strconv.ParseUint(s, int(asInt64(args[1])), int(asInt64(args[2])))
 	return tuple{n, fr.i.numError(err)}
 }
 
 func extAtoi(fr *frame, args []value) value {
+	if _, ok := args[0].(symStr); ok {
+		return interpretInstead{}
+	}
 	s := concStr(args[0], "strconv.Atoi")
 	n, err := strconv.Atoi(s)
 	return tuple{n, fr.i.numError(err)}
@@ -565,6 +577,9 @@ func (i *interpreter) fmtArg(v value) (interface{}, bool) {
 	case iface:
 		if v.t == nil {
 			return nil, true
+		}
+		if containsSym(v.v) {
+			return nil, false // never run String()/Error() on symbolic data just to format a message
 		}
 		// error / Stringer?
 		if s := i.tryErrorString(v); s != "" {
